@@ -1373,11 +1373,12 @@ func (r *fhRun) run(only map[int]bool) {
 			}
 		}
 		if s.Mode == "run" && !o.skipped && k > 0 && len(t.Sources) > 0 && method != "none" && gens && (len(t.Status) == 0 || stat) {
-			// idempotence: the previous step was a successful normal run of the same task
+			// idempotence: the previous step was a successful run of the same task — a normal one, or
+			// (`first=force`: the open finding C05-force-records-no-fingerprint) a --force run
 			ps := r.d.Steps[k-1]
-			if ps.Kind == "inv" && ps.Mode == "run" && ps.Task%len(r.d.Tasks) == ti && r.obsExit[k-1] == "ok" &&
+			if ps.Kind == "inv" && (ps.Mode == "run" || ps.Mode == "force") && ps.Task%len(r.d.Tasks) == ti && r.obsExit[k-1] == "ok" &&
 				(r.skips[k-1] || len(r.rans[k-1]) == len(t.Cmds)) && !(method == "timestamp" && newest > ps.Now) {
-				r.viol = append(r.viol, fhViol{"c05", k, ti, facts("not-idempotent")})
+				r.viol = append(r.viol, fhViol{"c05", k, ti, facts("not-idempotent") + " first=" + ps.Mode})
 			}
 		}
 		// C12: read-only invocations change nothing and run nothing
